@@ -4,14 +4,26 @@
 \* only touched under its lane's mutex and changes inside the step that follows the successful exchange.
 \*   push:  choose the next lane; try_lock (load, exchange); push_back; fetch_or(bit); unlock (exchange)
 \*   pop:   while (!empty() && !popped) { choose the previous lane; bit set?; try_lock; pop_front; if the lane is now empty fetch_and(~bit); unlock }
+\*          (Accessor = "back": the critical-task stream takes from the back and skips the null place-holders pop_specific leaves behind)
+\*   pop_specific(hint, isolation): lanes backwards from the hint: bit set?; try_lock; search the lane from the back for a task with this isolation tag
+\*          (the last element is removed, an inner one is replaced by null); if the lane is now empty fetch_and(~bit); unlock; until found, empty() or back at the hint
 \* Properties (C01 / C02): a task is handed out at most once; no task is stranded - a lane that holds a task and is not locked has its population bit set,
 \* so at quiescence every pushed task was popped or is still advertised.
 EXTENDS Integers, Sequences, FiniteSets, TLC
-CONSTANTS Pushers, Poppers, NLanes, PushN, PopN     \* PushN[p]: number of tasks pusher p pushes (task ids p*10+k); PopN: pop() calls per popper
+CONSTANTS Pushers, Poppers, NLanes, PushN, PopN,    \* PushN[p]: number of tasks pusher p pushes (task ids p*10+k); PopN: pop() calls per popper
+          Specifics, SpecN, Tag, Accessor            \* Specifics: threads calling pop_specific SpecN times with isolation Tag[self]; Tag[p] for a pusher: the tag of its tasks
 Lanes == 0..NLanes-1
 (* --algorithm taskstream {
   variables pop = {}, mtx = [l \in Lanes |-> FALSE], q = [l \in Lanes |-> <<>>],
-            got = [t \in Pushers \cup Poppers |-> <<>>];
+            got = [t \in Pushers \cup Poppers \cup Specifics |-> <<>>];
+  define {
+    TagOf(x) == Tag[x \div 10]
+    \* look_specific: index of the last element of s that is a task with tag g, or 0
+    LastWith(s, g) == IF \E i \in DOMAIN s : s[i] # 0 /\ TagOf(s[i]) = g THEN CHOOSE i \in DOMAIN s : s[i] # 0 /\ TagOf(s[i]) = g /\ \A j \in DOMAIN s : (j > i => (s[j] = 0 \/ TagOf(s[j]) # g)) ELSE 0
+    \* back_nonnull get_item: drop trailing nulls, take the last task (or nothing if only nulls were there)
+    RECURSIVE StripNulls(_)
+    StripNulls(s) == IF s # <<>> /\ s[Len(s)] = 0 THEN StripNulls(SubSeq(s, 1, Len(s) - 1)) ELSE s
+  }
   process (pu \in Pushers)
     variables k = 1, prev = 0, lane = 0, f = FALSE;
   {
@@ -40,8 +52,9 @@ Lanes == 0..NLanes-1
          if (f) { goto PO1 };
     PO4: f := mtx[lane]; mtx[lane] := TRUE;                  \* try_lock: exchange(true)
          if (f) { goto PO1 };
-    PO5: if (Len(q[lane]) > 0) {                             \* under the lock: pop_front, and clear the bit if the lane became empty
-           r := Head(q[lane]); q[lane] := Tail(q[lane]);
+    PO5: if (Len(q[lane]) > 0) {                             \* under the lock: take an item, and clear the bit if the lane became empty
+           if (Accessor = "front") { r := Head(q[lane]); q[lane] := Tail(q[lane]) }
+           else { with (st = StripNulls(q[lane])) { if (st = <<>>) { r := 0; q[lane] := <<>> } else { r := st[Len(st)]; q[lane] := SubSeq(st, 1, Len(st) - 1) } } };
            if (Len(q[lane]) = 0) { goto PO6 } else { goto PO7 } }
          else { goto PO7 };
     PO6: pop := pop \ {lane};                                \* clear_one_bit: fetch_and
@@ -50,23 +63,60 @@ Lanes == 0..NLanes-1
     PORet: got[self] := Append(got[self], r); n := n + 1;
     }
   }
+  process (sp \in Specifics)
+    variables sn = 1, last = 0, idx = 0, sf = FALSE, sr = 0, spp = {}, at = 0;
+  {
+  SP0: while (sn <= SpecN) {
+         sr := 0; idx := last;
+    SP1: spp := pop;                                         \* is_bit_set(population.load, idx)
+         if (idx \notin spp) { goto SPn };
+    SP2: sf := mtx[idx];                                     \* try_lock: load
+         if (sf) { goto SPn };
+    SP3: sf := mtx[idx]; mtx[idx] := TRUE;                   \* try_lock: exchange(true)
+         if (sf) { goto SPn };
+    SP4: if (Len(q[idx]) > 0) {                              \* under the lock: look_specific, and clear the bit if the lane became empty
+           at := LastWith(q[idx], Tag[self]);
+           if (at # 0) { sr := q[idx][at];
+                         if (at = Len(q[idx])) { q[idx] := SubSeq(q[idx], 1, at - 1) } else { q[idx][at] := 0 } };
+           if (Len(q[idx]) = 0) { goto SP5 } else { goto SP6 } }
+         else { goto SP6 };
+    SP5: pop := pop \ {idx};                                 \* clear_one_bit: fetch_and
+    SP6: mtx[idx] := FALSE;                                  \* unlock: exchange(false)
+         if (sr # 0) { goto SPRet };
+    SPn: idx := (idx + NLanes - 1) % NLanes;
+    SPe: spp := pop;                                         \* while (!empty() && idx != last_used_lane)
+         if (spp # {} /\ idx # last) { goto SP1 };
+    SPRet: last := idx; got[self] := Append(got[self], sr); sn := sn + 1;
+    }
+  }
 } *)
 \* BEGIN TRANSLATION
-\* Process variable prev of process pu at line 16 col 22 changed to prev_
-\* Process variable lane of process pu at line 16 col 32 changed to lane_
-\* Process variable f of process pu at line 16 col 42 changed to f_
-VARIABLES pc, pop, mtx, q, got, k, prev_, lane_, f_, n, prev, lane, f, r, p
+\* Process variable prev of process pu at line 28 col 22 changed to prev_
+\* Process variable lane of process pu at line 28 col 32 changed to lane_
+\* Process variable f of process pu at line 28 col 42 changed to f_
+VARIABLES pc, pop, mtx, q, got
 
-vars == << pc, pop, mtx, q, got, k, prev_, lane_, f_, n, prev, lane, f, r, p
-        >>
+(* define statement *)
+TagOf(x) == Tag[x \div 10]
 
-ProcSet == (Pushers) \cup (Poppers)
+LastWith(s, g) == IF \E i \in DOMAIN s : s[i] # 0 /\ TagOf(s[i]) = g THEN CHOOSE i \in DOMAIN s : s[i] # 0 /\ TagOf(s[i]) = g /\ \A j \in DOMAIN s : (j > i => (s[j] = 0 \/ TagOf(s[j]) # g)) ELSE 0
+
+RECURSIVE StripNulls(_)
+StripNulls(s) == IF s # <<>> /\ s[Len(s)] = 0 THEN StripNulls(SubSeq(s, 1, Len(s) - 1)) ELSE s
+
+VARIABLES k, prev_, lane_, f_, n, prev, lane, f, r, p, sn, last, idx, sf, sr, 
+          spp, at
+
+vars == << pc, pop, mtx, q, got, k, prev_, lane_, f_, n, prev, lane, f, r, p, 
+           sn, last, idx, sf, sr, spp, at >>
+
+ProcSet == (Pushers) \cup (Poppers) \cup (Specifics)
 
 Init == (* Global variables *)
         /\ pop = {}
         /\ mtx = [l \in Lanes |-> FALSE]
         /\ q = [l \in Lanes |-> <<>>]
-        /\ got = [t \in Pushers \cup Poppers |-> <<>>]
+        /\ got = [t \in Pushers \cup Poppers \cup Specifics |-> <<>>]
         (* Process pu *)
         /\ k = [self \in Pushers |-> 1]
         /\ prev_ = [self \in Pushers |-> 0]
@@ -79,21 +129,31 @@ Init == (* Global variables *)
         /\ f = [self \in Poppers |-> FALSE]
         /\ r = [self \in Poppers |-> 0]
         /\ p = [self \in Poppers |-> {}]
+        (* Process sp *)
+        /\ sn = [self \in Specifics |-> 1]
+        /\ last = [self \in Specifics |-> 0]
+        /\ idx = [self \in Specifics |-> 0]
+        /\ sf = [self \in Specifics |-> FALSE]
+        /\ sr = [self \in Specifics |-> 0]
+        /\ spp = [self \in Specifics |-> {}]
+        /\ at = [self \in Specifics |-> 0]
         /\ pc = [self \in ProcSet |-> CASE self \in Pushers -> "PU0"
-                                        [] self \in Poppers -> "PO0"]
+                                        [] self \in Poppers -> "PO0"
+                                        [] self \in Specifics -> "SP0"]
 
 PU0(self) == /\ pc[self] = "PU0"
              /\ IF k[self] <= PushN[self]
                    THEN /\ pc' = [pc EXCEPT ![self] = "PUs"]
                    ELSE /\ pc' = [pc EXCEPT ![self] = "Done"]
              /\ UNCHANGED << pop, mtx, q, got, k, prev_, lane_, f_, n, prev, 
-                             lane, f, r, p >>
+                             lane, f, r, p, sn, last, idx, sf, sr, spp, at >>
 
 PUs(self) == /\ pc[self] = "PUs"
              /\ prev_' = [prev_ EXCEPT ![self] = (prev_[self] + 1) % NLanes]
              /\ lane_' = [lane_ EXCEPT ![self] = prev_'[self]]
              /\ pc' = [pc EXCEPT ![self] = "PU1"]
-             /\ UNCHANGED << pop, mtx, q, got, k, f_, n, prev, lane, f, r, p >>
+             /\ UNCHANGED << pop, mtx, q, got, k, f_, n, prev, lane, f, r, p, 
+                             sn, last, idx, sf, sr, spp, at >>
 
 PU1(self) == /\ pc[self] = "PU1"
              /\ f_' = [f_ EXCEPT ![self] = mtx[lane_[self]]]
@@ -101,7 +161,7 @@ PU1(self) == /\ pc[self] = "PU1"
                    THEN /\ pc' = [pc EXCEPT ![self] = "PUs"]
                    ELSE /\ pc' = [pc EXCEPT ![self] = "PU2"]
              /\ UNCHANGED << pop, mtx, q, got, k, prev_, lane_, n, prev, lane, 
-                             f, r, p >>
+                             f, r, p, sn, last, idx, sf, sr, spp, at >>
 
 PU2(self) == /\ pc[self] = "PU2"
              /\ f_' = [f_ EXCEPT ![self] = mtx[lane_[self]]]
@@ -110,21 +170,21 @@ PU2(self) == /\ pc[self] = "PU2"
                    THEN /\ pc' = [pc EXCEPT ![self] = "PUs"]
                    ELSE /\ pc' = [pc EXCEPT ![self] = "PU3"]
              /\ UNCHANGED << pop, q, got, k, prev_, lane_, n, prev, lane, f, r, 
-                             p >>
+                             p, sn, last, idx, sf, sr, spp, at >>
 
 PU3(self) == /\ pc[self] = "PU3"
              /\ q' = [q EXCEPT ![lane_[self]] = Append(q[lane_[self]], self * 10 + k[self])]
              /\ pop' = (pop \cup {lane_[self]})
              /\ pc' = [pc EXCEPT ![self] = "PU4"]
              /\ UNCHANGED << mtx, got, k, prev_, lane_, f_, n, prev, lane, f, 
-                             r, p >>
+                             r, p, sn, last, idx, sf, sr, spp, at >>
 
 PU4(self) == /\ pc[self] = "PU4"
              /\ mtx' = [mtx EXCEPT ![lane_[self]] = FALSE]
              /\ k' = [k EXCEPT ![self] = k[self] + 1]
              /\ pc' = [pc EXCEPT ![self] = "PU0"]
              /\ UNCHANGED << pop, q, got, prev_, lane_, f_, n, prev, lane, f, 
-                             r, p >>
+                             r, p, sn, last, idx, sf, sr, spp, at >>
 
 pu(self) == PU0(self) \/ PUs(self) \/ PU1(self) \/ PU2(self) \/ PU3(self)
                \/ PU4(self)
@@ -136,7 +196,7 @@ PO0(self) == /\ pc[self] = "PO0"
                    ELSE /\ pc' = [pc EXCEPT ![self] = "Done"]
                         /\ r' = r
              /\ UNCHANGED << pop, mtx, q, got, k, prev_, lane_, f_, n, prev, 
-                             lane, f, p >>
+                             lane, f, p, sn, last, idx, sf, sr, spp, at >>
 
 PO1(self) == /\ pc[self] = "PO1"
              /\ p' = [p EXCEPT ![self] = pop]
@@ -144,13 +204,14 @@ PO1(self) == /\ pc[self] = "PO1"
                    THEN /\ pc' = [pc EXCEPT ![self] = "PORet"]
                    ELSE /\ pc' = [pc EXCEPT ![self] = "POs"]
              /\ UNCHANGED << pop, mtx, q, got, k, prev_, lane_, f_, n, prev, 
-                             lane, f, r >>
+                             lane, f, r, sn, last, idx, sf, sr, spp, at >>
 
 POs(self) == /\ pc[self] = "POs"
              /\ prev' = [prev EXCEPT ![self] = (prev[self] + NLanes - 1) % NLanes]
              /\ lane' = [lane EXCEPT ![self] = prev'[self]]
              /\ pc' = [pc EXCEPT ![self] = "PO2"]
-             /\ UNCHANGED << pop, mtx, q, got, k, prev_, lane_, f_, n, f, r, p >>
+             /\ UNCHANGED << pop, mtx, q, got, k, prev_, lane_, f_, n, f, r, p, 
+                             sn, last, idx, sf, sr, spp, at >>
 
 PO2(self) == /\ pc[self] = "PO2"
              /\ p' = [p EXCEPT ![self] = pop]
@@ -158,7 +219,7 @@ PO2(self) == /\ pc[self] = "PO2"
                    THEN /\ pc' = [pc EXCEPT ![self] = "PO1"]
                    ELSE /\ pc' = [pc EXCEPT ![self] = "PO3"]
              /\ UNCHANGED << pop, mtx, q, got, k, prev_, lane_, f_, n, prev, 
-                             lane, f, r >>
+                             lane, f, r, sn, last, idx, sf, sr, spp, at >>
 
 PO3(self) == /\ pc[self] = "PO3"
              /\ f' = [f EXCEPT ![self] = mtx[lane[self]]]
@@ -166,7 +227,7 @@ PO3(self) == /\ pc[self] = "PO3"
                    THEN /\ pc' = [pc EXCEPT ![self] = "PO1"]
                    ELSE /\ pc' = [pc EXCEPT ![self] = "PO4"]
              /\ UNCHANGED << pop, mtx, q, got, k, prev_, lane_, f_, n, prev, 
-                             lane, r, p >>
+                             lane, r, p, sn, last, idx, sf, sr, spp, at >>
 
 PO4(self) == /\ pc[self] = "PO4"
              /\ f' = [f EXCEPT ![self] = mtx[lane[self]]]
@@ -175,25 +236,32 @@ PO4(self) == /\ pc[self] = "PO4"
                    THEN /\ pc' = [pc EXCEPT ![self] = "PO1"]
                    ELSE /\ pc' = [pc EXCEPT ![self] = "PO5"]
              /\ UNCHANGED << pop, q, got, k, prev_, lane_, f_, n, prev, lane, 
-                             r, p >>
+                             r, p, sn, last, idx, sf, sr, spp, at >>
 
 PO5(self) == /\ pc[self] = "PO5"
              /\ IF Len(q[lane[self]]) > 0
-                   THEN /\ r' = [r EXCEPT ![self] = Head(q[lane[self]])]
-                        /\ q' = [q EXCEPT ![lane[self]] = Tail(q[lane[self]])]
+                   THEN /\ IF Accessor = "front"
+                              THEN /\ r' = [r EXCEPT ![self] = Head(q[lane[self]])]
+                                   /\ q' = [q EXCEPT ![lane[self]] = Tail(q[lane[self]])]
+                              ELSE /\ LET st == StripNulls(q[lane[self]]) IN
+                                        IF st = <<>>
+                                           THEN /\ r' = [r EXCEPT ![self] = 0]
+                                                /\ q' = [q EXCEPT ![lane[self]] = <<>>]
+                                           ELSE /\ r' = [r EXCEPT ![self] = st[Len(st)]]
+                                                /\ q' = [q EXCEPT ![lane[self]] = SubSeq(st, 1, Len(st) - 1)]
                         /\ IF Len(q'[lane[self]]) = 0
                               THEN /\ pc' = [pc EXCEPT ![self] = "PO6"]
                               ELSE /\ pc' = [pc EXCEPT ![self] = "PO7"]
                    ELSE /\ pc' = [pc EXCEPT ![self] = "PO7"]
                         /\ UNCHANGED << q, r >>
              /\ UNCHANGED << pop, mtx, got, k, prev_, lane_, f_, n, prev, lane, 
-                             f, p >>
+                             f, p, sn, last, idx, sf, sr, spp, at >>
 
 PO6(self) == /\ pc[self] = "PO6"
              /\ pop' = pop \ {lane[self]}
              /\ pc' = [pc EXCEPT ![self] = "PO7"]
              /\ UNCHANGED << mtx, q, got, k, prev_, lane_, f_, n, prev, lane, 
-                             f, r, p >>
+                             f, r, p, sn, last, idx, sf, sr, spp, at >>
 
 PO7(self) == /\ pc[self] = "PO7"
              /\ mtx' = [mtx EXCEPT ![lane[self]] = FALSE]
@@ -201,18 +269,111 @@ PO7(self) == /\ pc[self] = "PO7"
                    THEN /\ pc' = [pc EXCEPT ![self] = "PO1"]
                    ELSE /\ pc' = [pc EXCEPT ![self] = "PORet"]
              /\ UNCHANGED << pop, q, got, k, prev_, lane_, f_, n, prev, lane, 
-                             f, r, p >>
+                             f, r, p, sn, last, idx, sf, sr, spp, at >>
 
 PORet(self) == /\ pc[self] = "PORet"
                /\ got' = [got EXCEPT ![self] = Append(got[self], r[self])]
                /\ n' = [n EXCEPT ![self] = n[self] + 1]
                /\ pc' = [pc EXCEPT ![self] = "PO0"]
                /\ UNCHANGED << pop, mtx, q, k, prev_, lane_, f_, prev, lane, f, 
-                               r, p >>
+                               r, p, sn, last, idx, sf, sr, spp, at >>
 
 po(self) == PO0(self) \/ PO1(self) \/ POs(self) \/ PO2(self) \/ PO3(self)
                \/ PO4(self) \/ PO5(self) \/ PO6(self) \/ PO7(self)
                \/ PORet(self)
+
+SP0(self) == /\ pc[self] = "SP0"
+             /\ IF sn[self] <= SpecN
+                   THEN /\ sr' = [sr EXCEPT ![self] = 0]
+                        /\ idx' = [idx EXCEPT ![self] = last[self]]
+                        /\ pc' = [pc EXCEPT ![self] = "SP1"]
+                   ELSE /\ pc' = [pc EXCEPT ![self] = "Done"]
+                        /\ UNCHANGED << idx, sr >>
+             /\ UNCHANGED << pop, mtx, q, got, k, prev_, lane_, f_, n, prev, 
+                             lane, f, r, p, sn, last, sf, spp, at >>
+
+SP1(self) == /\ pc[self] = "SP1"
+             /\ spp' = [spp EXCEPT ![self] = pop]
+             /\ IF idx[self] \notin spp'[self]
+                   THEN /\ pc' = [pc EXCEPT ![self] = "SPn"]
+                   ELSE /\ pc' = [pc EXCEPT ![self] = "SP2"]
+             /\ UNCHANGED << pop, mtx, q, got, k, prev_, lane_, f_, n, prev, 
+                             lane, f, r, p, sn, last, idx, sf, sr, at >>
+
+SP2(self) == /\ pc[self] = "SP2"
+             /\ sf' = [sf EXCEPT ![self] = mtx[idx[self]]]
+             /\ IF sf'[self]
+                   THEN /\ pc' = [pc EXCEPT ![self] = "SPn"]
+                   ELSE /\ pc' = [pc EXCEPT ![self] = "SP3"]
+             /\ UNCHANGED << pop, mtx, q, got, k, prev_, lane_, f_, n, prev, 
+                             lane, f, r, p, sn, last, idx, sr, spp, at >>
+
+SP3(self) == /\ pc[self] = "SP3"
+             /\ sf' = [sf EXCEPT ![self] = mtx[idx[self]]]
+             /\ mtx' = [mtx EXCEPT ![idx[self]] = TRUE]
+             /\ IF sf'[self]
+                   THEN /\ pc' = [pc EXCEPT ![self] = "SPn"]
+                   ELSE /\ pc' = [pc EXCEPT ![self] = "SP4"]
+             /\ UNCHANGED << pop, q, got, k, prev_, lane_, f_, n, prev, lane, 
+                             f, r, p, sn, last, idx, sr, spp, at >>
+
+SP4(self) == /\ pc[self] = "SP4"
+             /\ IF Len(q[idx[self]]) > 0
+                   THEN /\ at' = [at EXCEPT ![self] = LastWith(q[idx[self]], Tag[self])]
+                        /\ IF at'[self] # 0
+                              THEN /\ sr' = [sr EXCEPT ![self] = q[idx[self]][at'[self]]]
+                                   /\ IF at'[self] = Len(q[idx[self]])
+                                         THEN /\ q' = [q EXCEPT ![idx[self]] = SubSeq(q[idx[self]], 1, at'[self] - 1)]
+                                         ELSE /\ q' = [q EXCEPT ![idx[self]][at'[self]] = 0]
+                              ELSE /\ TRUE
+                                   /\ UNCHANGED << q, sr >>
+                        /\ IF Len(q'[idx[self]]) = 0
+                              THEN /\ pc' = [pc EXCEPT ![self] = "SP5"]
+                              ELSE /\ pc' = [pc EXCEPT ![self] = "SP6"]
+                   ELSE /\ pc' = [pc EXCEPT ![self] = "SP6"]
+                        /\ UNCHANGED << q, sr, at >>
+             /\ UNCHANGED << pop, mtx, got, k, prev_, lane_, f_, n, prev, lane, 
+                             f, r, p, sn, last, idx, sf, spp >>
+
+SP5(self) == /\ pc[self] = "SP5"
+             /\ pop' = pop \ {idx[self]}
+             /\ pc' = [pc EXCEPT ![self] = "SP6"]
+             /\ UNCHANGED << mtx, q, got, k, prev_, lane_, f_, n, prev, lane, 
+                             f, r, p, sn, last, idx, sf, sr, spp, at >>
+
+SP6(self) == /\ pc[self] = "SP6"
+             /\ mtx' = [mtx EXCEPT ![idx[self]] = FALSE]
+             /\ IF sr[self] # 0
+                   THEN /\ pc' = [pc EXCEPT ![self] = "SPRet"]
+                   ELSE /\ pc' = [pc EXCEPT ![self] = "SPn"]
+             /\ UNCHANGED << pop, q, got, k, prev_, lane_, f_, n, prev, lane, 
+                             f, r, p, sn, last, idx, sf, sr, spp, at >>
+
+SPn(self) == /\ pc[self] = "SPn"
+             /\ idx' = [idx EXCEPT ![self] = (idx[self] + NLanes - 1) % NLanes]
+             /\ pc' = [pc EXCEPT ![self] = "SPe"]
+             /\ UNCHANGED << pop, mtx, q, got, k, prev_, lane_, f_, n, prev, 
+                             lane, f, r, p, sn, last, sf, sr, spp, at >>
+
+SPe(self) == /\ pc[self] = "SPe"
+             /\ spp' = [spp EXCEPT ![self] = pop]
+             /\ IF spp'[self] # {} /\ idx[self] # last[self]
+                   THEN /\ pc' = [pc EXCEPT ![self] = "SP1"]
+                   ELSE /\ pc' = [pc EXCEPT ![self] = "SPRet"]
+             /\ UNCHANGED << pop, mtx, q, got, k, prev_, lane_, f_, n, prev, 
+                             lane, f, r, p, sn, last, idx, sf, sr, at >>
+
+SPRet(self) == /\ pc[self] = "SPRet"
+               /\ last' = [last EXCEPT ![self] = idx[self]]
+               /\ got' = [got EXCEPT ![self] = Append(got[self], sr[self])]
+               /\ sn' = [sn EXCEPT ![self] = sn[self] + 1]
+               /\ pc' = [pc EXCEPT ![self] = "SP0"]
+               /\ UNCHANGED << pop, mtx, q, k, prev_, lane_, f_, n, prev, lane, 
+                               f, r, p, idx, sf, sr, spp, at >>
+
+sp(self) == SP0(self) \/ SP1(self) \/ SP2(self) \/ SP3(self) \/ SP4(self)
+               \/ SP5(self) \/ SP6(self) \/ SPn(self) \/ SPe(self)
+               \/ SPRet(self)
 
 (* Allow infinite stuttering to prevent deadlock on termination. *)
 Terminating == /\ \A self \in ProcSet: pc[self] = "Done"
@@ -220,6 +381,7 @@ Terminating == /\ \A self \in ProcSet: pc[self] = "Done"
 
 Next == (\E self \in Pushers: pu(self))
            \/ (\E self \in Poppers: po(self))
+           \/ (\E self \in Specifics: sp(self))
            \/ Terminating
 
 Spec == Init /\ [][Next]_vars
@@ -228,12 +390,16 @@ Termination == <>(\A self \in ProcSet: pc[self] = "Done")
 
 \* END TRANSLATION
 Pushed == {pp * 10 + kk : pp \in Pushers, kk \in 1..3} \cap UNION {{pp * 10 + kk : kk \in 1..PushN[pp]} : pp \in Pushers}
-Taken == UNION {{got[t][i] : i \in DOMAIN got[t]} : t \in Poppers} \ {0}
-NoDup == \A t1, t2 \in Poppers : \A i \in DOMAIN got[t1], j \in DOMAIN got[t2] : (got[t1][i] # 0 /\ got[t1][i] = got[t2][j]) => (t1 = t2 /\ i = j)
+Takers == Poppers \cup Specifics
+Taken == UNION {{got[t][i] : i \in DOMAIN got[t]} : t \in Takers} \ {0}
+NoDup == \A t1, t2 \in Takers : \A i \in DOMAIN got[t1], j \in DOMAIN got[t2] : (got[t1][i] # 0 /\ got[t1][i] = got[t2][j]) => (t1 = t2 /\ i = j)
 InLane(x) == \E l \in Lanes : \E i \in DOMAIN q[l] : q[l][i] = x
 \* a lane that holds a task and is not locked is advertised
-NoStrand == \A l \in Lanes : (Len(q[l]) > 0 /\ ~mtx[l]) => l \in pop
-AllDone == \A t \in Pushers \cup Poppers : pc[t] = "Done"
+\* (a lane that holds only null place-holders need not be advertised)
+NoStrand == \A l \in Lanes : ((\E i \in DOMAIN q[l] : q[l][i] # 0) /\ ~mtx[l]) => l \in pop
+AllDone == \A t \in Pushers \cup Poppers \cup Specifics : pc[t] = "Done"
+\* pop_specific hands out only tasks of the caller's isolation
+RightTag == \A t \in Specifics : \A i \in DOMAIN got[t] : got[t][i] # 0 => TagOf(got[t][i]) = Tag[t]
 NoLoss == AllDone => \A x \in Pushed : (x \in Taken) \/ (InLane(x) /\ \E l \in pop : \E i \in DOMAIN q[l] : q[l][i] = x)
 OnlyPushed == Taken \subseteq Pushed
 ====
